@@ -1152,6 +1152,12 @@ class OFConnection (object):
         continue
 
       message_length = message[2] << 8 | message[3]
+      if message_length < 8:
+        # Can't be a valid message, and we can't skip over it either
+        self.log.error('Bad OpenFlow message length %s', message_length)
+        io_worker.consume_receive_buf(len(message))
+        self.close()
+        break
       if message_length > len(message):
         break
 
@@ -1166,7 +1172,11 @@ class OFConnection (object):
         io_worker.consume_receive_buf(message_length)
         continue
 
-      new_offset, msg_obj = self.unpackers[ofp_type](message, 0)
+      try:
+        new_offset, msg_obj = self.unpackers[ofp_type](message, 0)
+      except Exception:
+        # Couldn't decode it.  Report it and skip what we were told to skip.
+        new_offset, msg_obj = None, None
       if new_offset != message_length:
         info = (msg_obj, message_length, new_offset)
         r = self._error_handler(self.ERR_BAD_LENGTH, info)
